@@ -365,7 +365,7 @@ func upcastCheck(r *core.Run, prop string) {
 	validateUpcast(r, strings.ToLower(prop)+"-seq", segs)
 	// racing registrations
 	var race []core.Segment
-	for i := 0; i < r.Pick(300, 5000); i++ {
+	for i := 0; i < r.Pick(2500, 40000); i++ {
 		race = append(race, core.Segment{Label: fmt.Sprintf("%s-race-%d", strings.ToLower(prop), i), Lines: racingRegistrations(rnd), Meta: "racing registrations"})
 		r.Case(fmt.Sprintf("race/%d", i))
 	}
